@@ -246,6 +246,47 @@ func checkC19(p *ana.Prog, r *ana.Result) {
 			r.Violate("C19.restart", fname, "epoch-recorded", p.Pos(fn.Pos()), "the observed epoch is not recorded (the PLL would restart on every update)")
 		}
 	}
+	// the slew bound is relative to the time since the previous update: every update that
+	// returns normally records its own time (l.t <- the clock reading taken at its start)
+	{
+		var nowCall ssa.Value
+		nNow := 0
+		ana.Instrs(fn, func(in ssa.Instruction) {
+			if c, ok := in.(*ssa.Call); ok && strings.HasSuffix(ana.CalleeName(&c.Call), "SystemClock).Now") {
+				nowCall = c
+				nNow++
+			}
+		})
+		if nNow != 1 {
+			nowCall = nil
+		}
+		var stores []ssa.Instruction
+		ana.Instrs(fn, func(in ssa.Instruction) {
+			if st, ok := in.(*ssa.Store); ok {
+				if fa, ok := st.Addr.(*ssa.FieldAddr); ok && fa.X == ssa.Value(fn.Params[0]) && fieldNameOf(fa.X.Type(), fa.Field) == "t" && st.Val == nowCall {
+					stores = append(stores, st)
+				}
+			}
+		})
+		isStore := func(in ssa.Instruction) bool {
+			for _, s := range stores {
+				if s == in {
+					return true
+				}
+			}
+			return false
+		}
+		isRet := func(in ssa.Instruction) bool { _, ok := in.(*ssa.Return); return ok }
+		if nowCall == nil || len(stores) == 0 {
+			r.Violate("C19.adjust", fname, "update-time-recorded", p.Pos(fn.Pos()), "Do does not record the time of this update (l.t <- clk.Now() read at entry): the slew bound of the next update is computed over a wrong interval")
+		} else if ana.Reachable(fn, nil, isRet, isStore, nil) {
+			s := &ana.Search{Fn: fn, Target: isRet, Stop: isStore}
+			_, w := s.Run(nil)
+			r.Violate("C19.adjust", fname, "update-time-recorded", p.Pos(fn.Pos()), "an update can return without recording its time in l.t: the next tracking update measures its interval (and its 500 ppm budget) from an older update", w...)
+		} else {
+			r.Ok("C19.adjust", fname, "update-time-recorded", posOf(p, stores[0]), "every update that returns records l.t <- the clock reading taken at its start")
+		}
+	}
 	// mode 0 arm: no Step reachable (covered by mode==1 gate)
 	// (c) slew bound and (d) positive duration
 	c19Adjust(p, r, fn, adj)
@@ -348,9 +389,27 @@ func isCeilTimes(v ssa.Value, dd ssa.Value, k float64) bool {
 // sequential ifs, v is either the lower-clamp constant arm (d*-5e-4) or the
 // phi after the upper clamp guarded by the failed lower test.
 func clampedBoth(v ssa.Value, d ssa.Value) bool {
+	return clampedBothN(v, d, 0)
+}
+
+func clampedBothN(v ssa.Value, d ssa.Value, depth int) bool {
 	// case A: v = d * -5e-4 (lower clamp taken)
 	if isCeilTimes(v, d, -0.0005) {
 		return true
+	}
+	// case C: a merge all of whose inputs are clamped (the two outcomes of the lower test joined
+	// before the value is used)
+	if ph, ok := v.(*ssa.Phi); ok && depth < 3 && len(ph.Edges) >= 1 {
+		all := true
+		for _, e := range ph.Edges {
+			if e == v || !clampedBothN(e, d, depth+1) {
+				all = false
+				break
+			}
+		}
+		if all {
+			return true
+		}
 	}
 	// case B: v = phi[p0 (p0 <= d*5e-4), d*5e-4], and the edge comes from the block where v < d*-5e-4 was false
 	ph, ok := v.(*ssa.Phi)
